@@ -330,6 +330,11 @@ template <typename T> static void reduce_all(bool full) {
   const int NP = 4 * W + 3 + 3 * W, NR = 3;
   V AP(NP), BP(NP), SA(2 * NP), SB(2 * NP);
   M AM(NR, NP), BM(NR, NP), SAM(NR, 2 * NP), SBM(NR, 2 * NP);
+  // tall matrices (at least 2W rows) whose row length is a multiple of the packet size: column ranges of them have short,
+  // possibly misaligned rows while the FIRST dimension is long
+  const int NT = 2 * W + 1, NC = 4 * W;
+  M TA(NT, NC), TB(NT, NC), STA(NT, 2 * NC), STB(NT, 2 * NC);
+  for (int j = 0; j < NT; ++j) for (int i = 0; i < NC; ++i) { TA(j, i) = T(1) + T(0.25) * val<T>() / T(16); TB(j, i) = val<T>(); STA(j, 2 * i) = TA(j, i); STB(j, 2 * i) = TB(j, i); }
   for (int n = 1; n <= 4 * W + 3; ++n)
     for (int oa = 0; oa < W; ++oa)
       for (int obi = 0; obi < W; ++obi) {
@@ -345,6 +350,11 @@ template <typename T> static void reduce_all(bool full) {
         M am = AM(__, range(oa, oa + n - 1)), bm = BM(__, range(ob, ob + n - 1));
         M sam = SAM(__, stride(2 * oa, 2 * (oa + n - 1), 2)), sbm = SBM(__, stride(2 * ob, 2 * (ob + n - 1), 2));
         reduce_line<T, M>(2, NR, n, am, bm, sam, sbm, amod(am.const_data(), W), amod(bm.const_data(), W), W);
+        if (n < W && obi == 0 && oa + n <= NC) {
+          M tam = TA(__, range(oa, oa + n - 1)), tbm = TB(__, range(oa, oa + n - 1));
+          M stam = STA(__, stride(2 * oa, 2 * (oa + n - 1), 2)), stbm = STB(__, stride(2 * oa, 2 * (oa + n - 1), 2));
+          reduce_line<T, M>(2, NT, n, tam, tbm, stam, stbm, amod(tam.const_data(), W), amod(tbm.const_data(), W), W);
+        }
       }
 }
 
